@@ -458,9 +458,13 @@ fn parse_unknown_taggedstruct(
         parser.get_token(context)?;
     }
 
-    while let Ok(BlockContent::Block(token, is_block, start_offset)) =
-        parser.get_next_tag_or_comment(context)
-    {
+    loop {
+        let (token, is_block, start_offset) = match parser.get_next_tag_or_comment(context) {
+            Ok(BlockContent::Block(token, is_block, start_offset)) => (token, is_block, start_offset),
+            // a comment between two items is skipped, like the comments in front of the first item
+            Ok(BlockContent::Comment(..)) => continue,
+            _ => break,
+        };
         let uid = parser.get_next_id();
         let tag = parser.get_token_text(token);
         let newcontext = ParseContext::from_token(tag, token);
